@@ -258,6 +258,8 @@ Definition store_failed (o : option fname) (c : cfg) (w : wal) (ls : list log) (
      pfx ec ec' (apply_act (e_disk ec) (append_act tw ls))) \/
   (exists l0 ls' w1 ec1 dels tw1 dm,
      ls = l0 :: ls' /\ reset_first c w (l_index l0) ec = (ROk, w1, ec1, dels) /\ w' = w1 /\ st_tail w1 = Some tw1 /\
+     (exists ti, tail_info (st_segs w) = Some ti /\ dels = [name_of ti] /\ st_closed w = false /\ st_failed w = false /\
+                 (last_index (st_segs w) (st_tail w) =? 0) && negb (l_index l0 =? si_base ti) = true) /\
      app_facts tw1 ls /\
      rc = ROk /\ (dm = e_disk ec1 \/ dm = apply_act (e_disk ec1) (append_act tw1 ls)) /\
      pfx ec ec' dm /\ drel None (e_disk e') (del_disk dels dm)).
@@ -301,10 +303,10 @@ Proof.
     (r = rc /\ w' = wc' /\ R o e' ec' /\ ((w' = w /\ e' = e /\ ec' = ec) \/ R None e' ec' \/ st_failed wc' = true)) \/
     (e_fault e' = None /\ r = RErrIO /\ store_failed o c w ls e ec w' e' rc ec')).
   { intros r0 E1 E2; inversion E1; inversion E2; subst. left. auto 10. }
-  destruct (st_closed w); [apply Hsame|].
+  destruct (st_closed w) eqn:Ecl; [apply Hsame|].
   destruct ls as [|l0 ls']; [apply Hsame|].
   set (ls := l0 :: ls') in *.
-  destruct (st_failed w); [apply Hsame|]. cbv zeta.
+  destruct (st_failed w) eqn:Efl; [apply Hsame|]. cbv zeta.
   destruct (tail_info _) as [ti|] eqn:Eti; [|apply Hsame].
   assert (Hg : forall tw, st_tail w = Some tw -> o = Some (ws_name tw) -> wguard (e_disk e) (ws_name tw) (ws_off tw)).
   { intros tw Ht Ho. destruct (Hst _ Ho) as (_ & ti' & tw' & _ & Ht' & _ & _ & G). rewrite Ht in Ht'. inversion Ht'; subst. exact G. }
@@ -348,14 +350,16 @@ Proof.
       pose proof (proj1 (sh_delete_files [name_of ti] ec2 (proj2 Hsh2))) as D2'.
       destruct G4 as [G4|(G4 & G5)].
       * exists l0, ls', wc1, ec1, [name_of ti], tw, (e_disk ec1).
-        split; [reflexivity|]. split; [exact Erc|]. split; [reflexivity|]. split; [exact Et|]. split; [exact Gf|]. split; [reflexivity|].
+        split; [reflexivity|]. split; [exact Erc|]. split; [reflexivity|]. split; [exact Et|].
+        split; [exists ti; auto|]. split; [exact Gf|]. split; [reflexivity|].
         split; [left; reflexivity|].
         split; [eapply pfx_more; [apply pfx_end; apply Hsh1|eapply aext_trans; [apply Hsh2|exact D2']]|].
         rewrite D4, G4. destruct o as [n|].
         -- apply (del_disk_drel_stale n); [apply B|apply Hdel; reflexivity].
         -- apply del_disk_drel. apply B.
       * exists l0, ls', wc1, ec1, [name_of ti], tw, (apply_act (e_disk ec1) (append_act tw ls)).
-        split; [reflexivity|]. split; [exact Erc|]. split; [reflexivity|]. split; [exact Et|]. split; [exact Gf|]. split; [reflexivity|].
+        split; [reflexivity|]. split; [exact Erc|]. split; [reflexivity|]. split; [exact Et|].
+        split; [exists ti; auto|]. split; [exact Gf|]. split; [reflexivity|].
         split; [right; reflexivity|].
         split; [eapply pfx_shift; [apply Hsh1|]; eapply pfx_more; [exact G5|exact D2']|].
         rewrite D4. destruct o as [n|].
